@@ -10,7 +10,7 @@ def run(tier, seed):
     q = tier == "quick"
     run_bounded(rep, "C05", [("calls", {"calls_focus": True, "max_funcs": 3}, "labels", 900 if q else 15000),
                              ("general", {}, "labels", 700 if q else 15000),
-                             ("names", {"calls_focus": True, "tricky_names": True, "max_funcs": 4}, "labels", 500 if q else 10000),
+                             ("names", {"calls_focus": True, "tricky_names": True, "max_funcs": 2}, "labels", 500 if q else 10000),
                              ("modules", {"modules": True, "collide": False}, "modules-rl", 500 if q else 8000)],
                 budget_s=80 if q else 1500, seed=seed, want=["C05", "C01"])
     rep.trust("bounded/props.py:spec_remove_labels (the property's own definition: labels replaced token-wise by the index of the following instruction)",
